@@ -10,7 +10,7 @@ PROP = "C11"
 
 def body():
     S.store_check(
-        PROP, model_cfgs=["StoreC11.cfg", "StoreL1U13.cfg"], gen_cfgs=["StoreGenC11.cfg", "StoreGenL1C04.cfg", "StoreGenL1U13.cfg"], quick_n=700, thorough_n=30000,
+        PROP, model_cfgs=["StoreC11.cfg", "StoreL1U13.cfg"], gen_cfgs=["StoreGenC11.cfg", "StoreGenL1C04.cfg", "StoreGenL1U13.cfg"], quick_n=700, thorough_n=8000,
         oracle=True,
         kinds_note="l1info", invs=["RootsMirror", "ConsecutiveIdx", "ProofsVerify", "RollupTreeMirror", "UProofsVerify", "FaultFreeSucceeds"],
         assumptions=["leaf and GER values are named by the reference packing in harness/names: keccak(MER,RER) and keccak(GER, parentHash, uint64 timestamp)", "the rollup exit tree expectation is the property's own: per rollup the last non-zero exit root, unchanged values produce no new root"])
